@@ -3,6 +3,7 @@
 //! specification's answer for the same lines).
 mod e_c16;
 mod e_c18;
+mod sim;
 mod util;
 
 use std::io::{BufRead, BufWriter, Write};
